@@ -3,7 +3,7 @@ import collections
 import re
 
 from mirlib import AnchorMissing, edge_label, switch_desc, describe_call, describe_operand, describe_place, describe_rvalue, dom_guards, guards, op_place, _suffix_match
-from rules.common import aggregates, owner_def, panic_sites, where
+from rules.common import aggregates, owner_def, panic_sites, where, implied_by_variant
 
 META = {
     "explanation": (
@@ -378,8 +378,8 @@ def run(ctx):
             for kind, desc, line, blk in sites:
                 g = dom_guards(b, blk)
                 why = None
-                if kind == "index" and any(parse_cmp(d) and "remaining(" in d for d, l, _ in g):
-                    why = "index guarded by a remaining() check"
+                if kind == "index" and any(parse_cmp(d) and ("remaining(" in d or "len(" in d) for d, l, _ in g):
+                    why = "index guarded by a remaining() / len() check"
                 elif kind == "panic" and "unreachable" in desc:
                     why = None
                 elif kind.startswith("assert:BoundsCheck") and any(parse_cmp(d) for d, l, _ in g):
@@ -487,6 +487,9 @@ def run(ctx):
                     continue
                 g = dom_guards(b, nb)
                 own = [d for d, l, _ in g if "self" in d and "src" not in d]
+                # (a value that can only be `Some` at a frame boundary carries that with it)
+                for d_, l_, sb_ in g:
+                    own += [d2 for d2, l2 in implied_by_variant(b, sb_, l_) if "self" in d2 and "src" not in d2]
                 size = [d for d, l, _ in g if "remaining(src)" in d or "len(src)" in d]
                 if not size:
                     continue
